@@ -253,7 +253,7 @@ type scanCase struct {
 	rowCells [][]string // GetAll: the cells of every row
 }
 
-var foreignNames = []string{"0", "1", "7", "+2", "id", "name", "x", "count(*)", "_sqlair_", "_sqlair_x", "_sqlair_-1", "_SQLAIR_0", "sqlair_0", "_sqlair_1x", "col", "",
+var foreignNames = []string{"0", "1", "7", "+2", "id", "name", "x", "count(*)", "_sqlair_", "_sqlair_x", "_sqlair_-1", "_SQLAIR_0", "sqlair_0", "_sqlair_1x", "col", "", "t._sqlair_0", "audit._sqlair_1", "x.y._sqlair_2", "._sqlair_0", "_sqlair_0.", "t.id",
 	// numbers no int holds (strconv.Atoi: value out of range): not aliases
 	"_sqlair_9223372036854775808", "_sqlair_18446744073709551615", "_sqlair_18446744073709551616", "_sqlair_99999999999999999999",
 	"_sqlair_-9223372036854775809", "_sqlair_9223372036854775808000", "_sqlair_12345678901234567890"}
@@ -391,6 +391,18 @@ func (sg *scanGen) next() scanCase {
 	if r.chance(1, 3) {
 		b.WriteString(" WHERE x = ")
 		b.WriteString(g.inputExpr(pIn))
+	}
+	if r.chance(1, 50) {
+		// very many columns into one map destination (bookkeeping per output: bit masks, tables)
+		nc := []int{63, 64, 65, 66, 127, 128, 129, 130}[r.intn(8)]
+		var cols []string
+		for i := 0; i < nc; i++ {
+			cols = append(cols, fmt.Sprintf("c%d", i))
+		}
+		b.Reset()
+		b.WriteString("SELECT (" + strings.Join(cols, ", ") + ") AS (&M.*) FROM t")
+		pOut = &stmtPlan{types: map[string]bool{"M": true}, ins: map[string]bool{}}
+		pIn = &stmtPlan{types: map[string]bool{}, ins: map[string]bool{}}
 	}
 	c := scanCase{query: b.String()}
 	all := map[string]bool{}
@@ -1100,6 +1112,8 @@ func cmdScan(args []string) int {
 			}
 			if o.leak != "" {
 				addViol(violation{"C13", "not-released-after-getall", qh, o.leak + " after " + trunc(o.line, 60)})
+				// (a result set that stays open pins its sql.Stmt: the driver statement is never closed)
+				addViol(violation{"C11", "not-released-after-getall", qh, o.leak + " after " + trunc(o.line, 60)})
 			}
 			for _, m := range o.viols {
 				addViol(violation{"C15", "getall-values", qh, m})
@@ -1137,6 +1151,7 @@ func cmdScan(args []string) int {
 		}
 		if o.leak != "" {
 			addViol(violation{"C13", "not-released-after-get", qh, o.leak + " after " + trunc(o.line, 60)})
+			addViol(violation{"C11", "not-released-after-get", qh, o.leak + " after " + trunc(o.line, 60)})
 		}
 		// C06: an error of the argument / column checks leaves every destination untouched
 		if o.class != "" && o.class != "conv" && o.before != o.after {
